@@ -21,6 +21,8 @@ def actOf? : Term → Option WAct
   | .atom "hold-timer" => some .holdTimer
   | .atom "hold-timer+keepalive" => some .holdTimerKeepalive
   | .atom "ka-timer" => some .kaTimer
+  | .atom "reset" => some .reset
+  | .atom "bfd-down" => some .bfdDown
   | _ => none
 
 /-- Same well-formedness as the harness: field widths of OPEN / NOTIFICATION. -/
